@@ -283,6 +283,86 @@ class _RenameBody:
             self._go(c, shadow)
 
 
+class DictCall(ast.NodeTransformer):
+    """{"a": x, "b": y} -> dict(a=x, b=y)   (string keys that are identifiers)"""
+
+    def visit_Dict(self, node):
+        self.generic_visit(node)
+        if node.keys and all(isinstance(k, ast.Constant) and isinstance(k.value, str) and k.value.isidentifier() for k in node.keys):
+            return ast.Call(func=ast.Name(id="dict", ctx=ast.Load()), args=[], keywords=[ast.keyword(arg=k.value, value=v) for k, v in zip(node.keys, node.values)])
+        return node
+
+
+class FStr2Concat(ast.NodeTransformer):
+    """f"{a}_x" -> a + "_x"   (only f-strings whose interpolations are plain names / attributes without format specs)"""
+
+    def visit_JoinedStr(self, node):
+        parts = []
+        for v in node.values:
+            if isinstance(v, ast.Constant):
+                parts.append(v)
+            elif isinstance(v, ast.FormattedValue) and v.conversion == -1 and v.format_spec is None and isinstance(v.value, ast.Attribute) and ast.unparse(v.value) == "self.name":
+                parts.append(v.value)
+            else:
+                return node
+        if len(parts) < 2:
+            return node
+        out = parts[0]
+        for p_ in parts[1:]:
+            out = ast.BinOp(left=out, op=ast.Add(), right=p_)
+        return out
+
+
+class Guard2Else(ast.NodeTransformer):
+    """if c: <... return>          if c: <... return>
+       rest                   ->   else: rest                (guard clause folded into if/else)"""
+
+    def _block(self, stmts):
+        for i, st in enumerate(stmts):
+            if isinstance(st, ast.If) and not st.orelse and st.body and isinstance(st.body[-1], (ast.Return, ast.Raise, ast.Continue)) and i + 1 < len(stmts):
+                rest = self._block(stmts[i + 1 :])
+                return stmts[:i] + [ast.If(test=st.test, body=st.body, orelse=rest)]
+        return stmts
+
+    def visit_FunctionDef(self, node):
+        self.generic_visit(node)
+        doc = node.body[:1] if node.body and isinstance(node.body[0], ast.Expr) and isinstance(node.body[0].value, ast.Constant) else []
+        node.body = doc + self._block(node.body[len(doc):])
+        return node
+
+
+def unique_signatures(srcs):
+    """{function name: [param names]} for names whose every definition in the tree has the same parameter list"""
+    sigs = {}
+    for src in srcs:
+        for n in ast.walk(ast.parse(src)):
+            if isinstance(n, (ast.FunctionDef, ast.AsyncFunctionDef)) and not n.args.vararg and not n.args.kwarg and not n.args.posonlyargs:
+                ps = tuple(a.arg for a in n.args.args if a.arg not in ("self", "cls"))
+                sigs.setdefault(n.name, set()).add(ps)
+    return {k: list(next(iter(v))) for k, v in sigs.items() if len(v) == 1 and not k.startswith("__")}
+
+
+class Pos2Kw(ast.NodeTransformer):
+    """f(a, b) -> f(p1=a, p2=b) for calls of functions / methods defined in the tree with a unique signature (all but the first
+    positional argument are turned into keywords)"""
+
+    def __init__(self, sigs):
+        self.sigs = sigs
+
+    def visit_Call(self, node):
+        self.generic_visit(node)
+        nm = node.func.attr if isinstance(node.func, ast.Attribute) else node.func.id if isinstance(node.func, ast.Name) else None
+        if isinstance(node.func, ast.Attribute) and not (isinstance(node.func.value, ast.Name) and node.func.value.id in ("self", "utils", "movement", "patterns")) and not (isinstance(node.func.value, ast.Name) and node.func.value.id[:1].isupper()):
+            return node  # receiver of unknown type: could be a builtin method of the same name
+        ps = self.sigs.get(nm)
+        if ps and 1 < len(node.args) <= len(ps) and not any(isinstance(a, ast.Starred) for a in node.args):
+            keep, move = node.args[:1], node.args[1:]
+            node.keywords = [ast.keyword(arg=ps[1 + i], value=a) for i, a in enumerate(move)] + node.keywords
+            node.args = keep
+        return node
+
+
+SIGS = {}
 PARAM_MAP = {}
 
 
@@ -308,6 +388,14 @@ def transform(src, mode):
         tree = Tern2If().visit(tree)
     elif mode == "paramrename":
         tree = ParamRename(PARAM_MAP).visit(tree)
+    elif mode == "dictcall":
+        tree = DictCall().visit(tree)
+    elif mode == "fstr2concat":
+        tree = FStr2Concat().visit(tree)
+    elif mode == "guard2else":
+        tree = Guard2Else().visit(tree)
+    elif mode == "pos2kw":
+        tree = Pos2Kw(SIGS).visit(tree)
     ast.fix_missing_locations(tree)
     return ast.unparse(tree) + "\n"
 
@@ -348,7 +436,7 @@ def main():
     ap.add_argument("--props", default="")
     ap.add_argument("--per-file", action="store_true")
     a = ap.parse_args()
-    modes = ["rename", "mirror", "reformat", "augexpand", "elseswap", "chainsplit", "commute", "extractret", "notnorm", "tern2if", "paramrename"] if a.mode == "all" else a.mode.split(",")
+    modes = ["rename", "mirror", "reformat", "augexpand", "elseswap", "chainsplit", "commute", "extractret", "notnorm", "tern2if", "paramrename", "dictcall", "fstr2concat", "guard2else", "pos2kw"] if a.mode == "all" else a.mode.split(",")
     props = a.props.split(",") if a.props else PROPS
     srcs = []
     for root, _, files in os.walk(os.path.join(REPO, "hexital")):
@@ -356,6 +444,7 @@ def main():
             if f.endswith(".py"):
                 srcs.append(open(os.path.join(root, f)).read())
     PARAM_MAP.update(private_param_names(srcs))
+    SIGS.update(unique_signatures(srcs))
     jobs = []
     for m in modes:
         if a.per_file:
